@@ -1,79 +1,265 @@
-"""C14 emitted code objects are structurally valid: abstract interpretation (all reachable
-(offset, stack depth) states) of every code object under the target interpreter's own dis."""
+"""C14 emitted code objects are structurally valid for the interpreter.
+
+Every code object (recursively) of every program of the C01/C12/C13 families, of C14's own
+constructs, of the jump-width stress bodies and of the corpus, compiled by the real compiler for
+each target version, is checked by py/codecheck.py RUNNING UNDER THAT TARGET INTERPRETER: exhaustive
+exploration of the reachable (offset, stack depth) states of the code object's control-flow graph
+on the interpreter's own dis.stack_effect, plus the jump / index / line-table clauses.
+
+Guard against false alarms (part of the check, machinery error if it fails): the same checker must
+report ZERO violations on the code objects each interpreter's OWN compiler produces for a corpus
+of that interpreter's standard library (json, collections, asyncio, email and every top-level
+module: ~10 000 code objects, ~450 000 abstract states per interpreter).
+"""
 import glob
 import json
 import os
+import re
+import threading
 
 import vlib
-from checks import c13
+from checks import c12, c13
 
 LEVEL = "model_checking"
 VERSIONS = c13.VERSIONS
 
+# constructs whose stack / jump shape is not in the C13 set (each is the smallest program of a shape
+# seen to matter while triaging: closures built by a lambda, match arms that end in a binding,
+# `if` without else as a value, control flow inside functions / methods / nested blocks)
+C14_CONSTRUCTS = {
+    "closure-by-lambda": "mk c: Nat = (x: Nat) -> c + x\nprint! mk(1)(2)\n",
+    "closure-by-lambda-2-cells": "mk a: Nat, b: Nat = (x: Nat) -> a + b + x\nprint! mk(1, 2)(3)\n",
+    "closure-only-body": "const|T, C|(c: C): (T -> C) = (_: T,) -> c\nprint! const(1)(2)\n",
+    "match-list-wildcard": 'f x: [Nat; 2] = match x:\n    [0, 0] -> "a"\n    [0, _] -> "b"\n    [_, 0] -> "c"\n    [_, _] -> "d"\nprint! f([0, 1])\n',
+    "match-list-wildcard-in-for": 'for! 1..<7, i =>\n    match [i % 2, i % 3]:\n        [0, 0] => print! "a"\n        [0, _] => print! "b"\n        [_, 0] => print! "c"\n        [_, _] => print! i\n',
+    "match-binding-in-for": 'for! 0..<3, i =>\n    match i:\n        0 => print! "zero"\n        j => print! j\n',
+    "match-in-while": 'c = !0\nwhile! do!(c < 3), do!:\n    s = match c:\n        0 -> "z"\n        _ -> "nz"\n    print! s\n    c.inc!()\n',
+    "if-value-no-else": "t = True\nx = if t, do 1\nprint! x\n",
+    "if-in-for": 'for! 0..<3, i =>\n    if! i == 1, do!:\n        print! "one"\n',
+    "if-else-in-for": 'for! 0..<3, i =>\n    s = if i == 1, do "one", do "other"\n    print! s\n',
+    "nested-for": "for! 0..<2, i =>\n    for! 0..<2, j =>\n        print! i, j\n",
+    "for-in-function": "f!() =\n    for! 0..<2, i =>\n        print! i\n    1\nprint! f!()\n",
+    "while-in-method": "C = Class()\nC.\n    run! self =\n        c = !0\n        while! do!(c < 2), do!:\n            c.inc!()\n        c\nprint! C.new().run!()\n",
+    "and-or-chain": "x = 1\nprint! x == 1 and x < 2 or x > 5\n",
+    "assert-with-message": 'x = 1\nassert x == 1, "msg"\nprint! "ok"\n',
+    "default-and-kw": "f x: Nat, y: Nat := 1, z: Nat := 2 = x + y + z\nprint! f(1, z := 5)\n",
+    "list-index-slice": "l = [1, 2, 3]\nprint! l[0], l[1..<2]\n",
+    "dict-of-lists": 'd = {"a": [1, 2], "b": [3]}\nprint! d["a"][1]\n',
+    "tuple-nested-unpack": "((a, b), c) = ((1, 2), 3)\nprint! a + b + c\n",
+    "str-interp-in-loop": 'for! 0..<2, i =>\n    print! "i=\\{i}"\n',
+    "line-far-apart": "x = 1\n" + "\n" * 300 + "print! x\n",           # line delta > 127 (and > 255)
+    "many-blank-lines-in-function": "f!() =\n    a = 1\n" + "\n" * 140 + "    print! a\nf!()\n",
+}
 
-def key_of(v, fam, ver):
-    """class of the input: program family (corpus: the file) + the code object the violation is in"""
-    k = v["kind"]
-    where = fam if fam.startswith(("corpus:", "construct:")) else fam.split(":")[0] + ":" + fam.split(":")[1]
-    code = "<module>" if v.get("code") == "<module>" else ("with-block" if v.get("code", "").startswith("%v_codegen") else "nested")
-    return f"{k}:{where}:{code}"
+
+def if_value_many_consts(n):
+    """`if` without else used as a value after n distinct constants: the skipped LOAD_CONST None needs EXTENDED_ARG"""
+    return "t = True\n" + "".join(f"print! {i + 1000}\n" for i in range(n)) + "x = if t, do 7\nprint! x\n"
+
+
+def programs(tier):
+    """-> [(family, source, target versions)].  quick: every structural family for all five targets, the expression-level
+    families (C01, C12: their bytecode shape does not depend on the target beyond the call protocol) for 3.8 and 3.11 and
+    every 4th of them for the other three; thorough: everything for all five."""
+    quick = tier == "quick"
+    out = []
+    k = 0
+    for fam, src in c13.programs(tier):
+        if fam.startswith("c01:"):
+            k += 1
+            vs = VERSIONS if (not quick or k % 4 == 0) else ["3.8", "3.11"]
+        else:
+            vs = VERSIONS
+        out.append((fam, src, vs))
+    out += [(f"c14:{name}", src, VERSIONS) for name, src in C14_CONSTRUCTS.items()]
+    for n in ((10, 300) if quick else (10, 200, 300, 1000)):
+        out.append((f"if-value-after-consts:{n}", if_value_many_consts(n), VERSIONS))
+    seen = set()
+    k = 0
+    for tags, src in c12.programs("quick"):
+        if src not in seen:
+            seen.add(src)
+            k += 1
+            vs = VERSIONS if (not quick or k % 4 == 0) else ["3.8", "3.11"]
+            out.append((f"c12:{tags['rhs']}:{tags['place']}:{tags['form']}:{'used' if tags['used'] else 'unused'}", src, vs))
+    return out
+
+
+def input_class(fam):
+    """class of the input program used in violation keys (from the generator's parameters / the corpus path)"""
+    if fam.startswith("c01:"):
+        return "c01:" + fam.split(":")[1]
+    return fam
+
+
+IMPORT_RE = re.compile(r'\bimport\s+"([^"]+)"')
+
+
+def imports_of(src):
+    """the modules a program imports: what the compiler may inline into the .pyc as extra code objects"""
+    return ",".join(sorted(set(IMPORT_RE.findall(src)))) or "none"
+
+
+def key_of(v, fam, ver, src=""):
+    """<clause>@<kind of code object>:<target version>:<class of the input program>"""
+    if v["kind"] == "line-table-does-not-cover-code":
+        # which encoding is written is decided by the target version alone, never by the program: the class of failing inputs is "every program"
+        return f"line-table-does-not-cover-code:{ver}:*"
+    if v.get("where") == "inlined":
+        # a violation inside the code of an inlined imported module does not depend on the importer: the class is what is imported
+        return f"{v['kind']}@inlined:{ver}:imports:{imports_of(src)}"
+    return f"{v['kind']}@{v.get('where', 'module')}:{ver}:{input_class(fam)}"
+
+
+def corpus(tier):
+    files = sorted(glob.glob(os.path.join(vlib.REPO, "tests/should_ok/*.er")) + glob.glob(os.path.join(vlib.REPO, "examples/*.er")))
+    return files
+
+
+def inlined_bound(path):
+    """line bound for code objects of modules the compiler inlines into the importer's .pyc (they keep
+    their own line numbers): the longest .er file that can be imported from the file's directory or the bundled library"""
+    best = 0
+    roots = [os.path.dirname(path), os.path.join(vlib.REPO, "crates", "erg_compiler", "lib")]
+    for root in roots:
+        for p in glob.glob(os.path.join(root, "**", "*.er"), recursive=True):
+            try:
+                with open(p, encoding="utf-8") as f:
+                    best = max(best, f.read().count("\n") + 1)
+            except OSError:
+                pass
+    return best
+
+
+def selftest_files(version):
+    lib = os.path.join(os.path.dirname(os.path.dirname(vlib.PY[version])), "lib", "python" + version)
+    pats = ["json/*.py", "collections/*.py", "*.py", "asyncio/*.py", "email/*.py"]
+    out = []
+    for p in pats:
+        out += sorted(glob.glob(os.path.join(lib, p)))
+    return out
+
+
+def run_selftests(versions, result):
+    """each interpreter checks what its own compiler emits (one process per interpreter, in parallel)"""
+    def one(v):
+        files = selftest_files(v)
+        # several chunks per interpreter so that the wall time is the slowest chunk, not the sum
+        chunks = [files[i::4] for i in range(4)]
+        out = vlib.py_run([{"id": f"st{i}", "selftest": ch} for i, ch in enumerate(chunks)], "c14self", version=v, chunk=1, script_name="codecheck.py")
+        result[v] = out
+    ts = [threading.Thread(target=one, args=(v,)) for v in versions]
+    for t in ts:
+        t.start()
+    return ts
 
 
 def run(chk):
-    progs = c13.programs(chk.tier)
+    quick = chk.tier == "quick"
+    selftest = {}
+    threads = run_selftests(VERSIONS, selftest)
+    progs = programs(chk.tier)
     items = []
-    nlines = {}
-    for i, (fam, src) in enumerate(progs):
-        for v in VERSIONS:
+    meta = {}
+    for i, (fam, src, vs) in enumerate(progs):
+        n = src.count("\n") + 1
+        for v in vs:
             k = f"p{i}v{v.replace('.', '_')}"
             items.append({"id": k, "src": src, "mode": "compile", "target": v})
-            nlines[k] = src.count("\n") + 1
-    # corpus programs, compiled in place
-    corpus = sorted(glob.glob(os.path.join(vlib.REPO, "tests/should_ok/*.er")) + glob.glob(os.path.join(vlib.REPO, "examples/*.er")))
-    if chk.tier == "quick":
-        corpus = corpus[::3]
-    for j, path in enumerate(corpus):
-        n = open(path, encoding="utf-8").read().count("\n") + 1
-        for v in (VERSIONS if chk.tier != "quick" else ["3.8", "3.11"]):
+            meta[k] = (fam, v, n, n)
+    files = corpus(chk.tier)
+    bounds = {}
+    for j, path in enumerate(files):
+        with open(path, encoding="utf-8") as f:
+            n = f.read().count("\n") + 1
+        d = os.path.dirname(path)
+        if d not in bounds:
+            bounds[d] = inlined_bound(path)
+        rel = os.path.relpath(path, vlib.REPO)
+        # quick: the corpus for the default target and the oldest table (3.8 opcodes are also what 3.7 gets); thorough: all five
+        for v in (["3.8", "3.11"] if quick else VERSIONS):
             k = f"c{j}v{v.replace('.', '_')}"
             items.append({"id": k, "path": path, "mode": "compile", "target": v})
-            nlines[k] = n
-            progs_fam = None
-    fam_of = {f"p{i}": fam for i, (fam, _) in enumerate(progs)}
-    fam_of.update({f"c{j}": "corpus:" + os.path.basename(p) for j, p in enumerate(corpus)})
+            meta[k] = ("corpus:" + rel, v, n, max(n, bounds[d]))
+    by_id = {it["id"]: it for it in items}
     res, _ = vlib.compile_batch(items, "c14")
-    states = trans = cobjs = 0
+    # a worker that exceeded the per-item cap on a loaded machine is not a verdict: those items get one more, unhurried, attempt
+    again = [it for it in items if res.get(it["id"], {}).get("status") in ("hang", "abort", None)]
+    if again:
+        res2, _ = vlib.compile_batch(again, "c14retry", chunk=8, per_item_ms=120000)
+        res.update(res2)
+        chk.coverage["compile_retries"] = len(again)
+    tot = {}
     checked = 0
+    compiled_by_version = {}
     samples = []
-    skipped37 = 0
+    crashed = 0
     for v in VERSIONS:
         suffix = "v" + v.replace(".", "_")
-        sel = [{"id": k, "pyc": r["pyc"], "nlines": nlines[k]} for k, r in res.items() if k.endswith(suffix) and r["status"] == "ok"]
-        out = vlib.py_run(sel, "c14", version=v, script_name="codecheck.py")
+        sel = [{"id": k, "pyc": r["pyc"], "nlines": meta[k][2], "nlines_inlined": meta[k][3]} for k, r in res.items() if k.endswith(suffix) and r["status"] == "ok"]
+        compiled_by_version[v] = len(sel)
+        out = vlib.py_run(sel, "c14", version=v, chunk=40, script_name="codecheck.py")
         for k, r in out.items():
             checked += 1
-            states += r.get("states", 0)
-            trans += r.get("transitions", 0)
-            cobjs += r.get("code_objects", 0)
-            skipped37 += r.get("stack_clause_skipped_3_7_blocks", 0)
-            fam = fam_of[k.split("v")[0]]
-            if len(samples) < 3 and r.get("code_objects", 0) > 2:
+            fam = meta[k][0]
+            for key in ("states", "depth_states", "transitions", "code_objects", "instructions", "unmodelled", "max_depth_equals_stacksize"):
+                tot[key] = tot.get(key, 0) + r.get(key, 0)
+            if len(samples) < 4 and r.get("code_objects", 0) > 3 and v in ("3.8", "3.11"):
                 samples.append({"program": fam, "target": v, "code_objects": r["code_objects"], "abstract_states": r["states"], "transitions": r["transitions"]})
             for viol in r.get("violations", []):
-                chk.violation(key_of(viol, fam, v), {"program": fam, "target": v, "violation": viol, "item": next((it for it in items if it["id"] == k), None)},
+                if viol["kind"] == "checker-died":
+                    crashed += 1
+                item = by_id[k]
+                src = item.get("src")
+                if src is None:
+                    with open(item["path"], encoding="utf-8") as f:
+                        src = f.read()
+                chk.violation(key_of(viol, fam, v, src), {"program": fam, "target": v, "violation": viol, "item": item},
                               f"{fam} for {v}, code object {viol['code']!r}: {viol['kind']}: {viol['detail']}")
+    for k, r in res.items():
+        if r["status"] in ("panic", "abort", "hang") and not meta[k][0].startswith("corpus:"):
+            # a compiler crash is C07's business; here it only means this program contributes no code object
+            chk.coverage.setdefault("compiler_crashes_skipped", []).append(f"{meta[k][0]}@{meta[k][1]}: {r['status']}")
+    # ---- the guard: each interpreter's own compiler output must be clean -------------------------------
+    for t in threads:
+        t.join()
+    st = {}
+    for v in VERSIONS:
+        agg = {"files": 0, "code_objects": 0, "states": 0, "transitions": 0, "unmodelled": 0, "violations": 0, "max_depth_equals_stacksize": 0}
+        for r in selftest.get(v, {}).values():
+            for key in agg:
+                if key != "violations":
+                    agg[key] += r.get(key, 0)
+            agg["violations"] += len(r.get("violations", []))
+            for viol in r.get("violations", [])[:3]:
+                chk.machinery(f"self-test: the checker reports a violation on CPython {v}'s own compiler output: {viol}")
+        st[v] = agg
+        if agg["code_objects"] < 3000:
+            chk.machinery(f"self-test under {v} covered only {agg['code_objects']} code objects")
+        if agg["unmodelled"]:
+            chk.machinery(f"self-test under {v}: {agg['unmodelled']} paths cut for lack of a model")
+    if tot.get("unmodelled"):
+        chk.assumptions.append(f"{tot['unmodelled']} paths of emitted 3.7/3.8 code were cut where the block-opcode model has no semantics (END_FINALLY / WITH_CLEANUP on an unexpected slot); they are not explored further")
     chk.coverage.update({
-        "states": max(states, 1), "transitions": max(trans, 1), "traces_validated_against_impl": checked,
+        "states": max(tot.get("states", 0), 1), "transitions": max(tot.get("transitions", 0), 1), "traces_validated_against_impl": checked,
         "samples": samples or [{"note": "no program with nested code objects"}],
-        "code_objects": cobjs, "pyc_files_checked": checked, "programs": len(progs), "corpus_files": len(corpus), "versions": VERSIONS,
-        "stack_clause_skipped_for_3_7_code_with_block_setup": skipped37,
-        "explanation": "states = (instruction offset, operand stack depth) pairs reached by exhaustive exploration of each code object's control-flow graph, edges weighted by the target interpreter's "
-                       "dis.stack_effect(op, arg, jump=...) (3.11: exception-table handlers included); traces_validated_against_impl = .pyc files produced by the real compiler and loaded by the target's marshal",
+        "code_objects": tot.get("code_objects", 0), "instructions": tot.get("instructions", 0), "pyc_files_checked": checked,
+        "programs": len(progs), "corpus_files": len(files), "compiled_ok_by_version": compiled_by_version, "versions": VERSIONS,
+        "corpus_versions": ["3.8", "3.11"] if quick else VERSIONS,
+        "code_objects_whose_reachable_max_depth_equals_co_stacksize": tot.get("max_depth_equals_stacksize", 0),
+        "selftest_on_cpython_compiler_output": st,
+        "explanation": "states = abstract machine states reached by exhaustive exploration of each code object's control-flow graph: (offset, operand stack depth) for 3.9-3.11 with edges weighted by the "
+                       "target interpreter's dis.stack_effect(op, arg, jump=...) and 3.11 exception-table handlers included; (offset, tagged stack, block stack) for 3.7/3.8 where END_FINALLY / WITH_CLEANUP_* "
+                       "depend on what is on the stack. traces_validated_against_impl = .pyc files produced by the real compiler, loaded by the target's marshal and decoded by its dis",
         "exhaustive": True,
     })
-    chk.assumptions += ["trusted base: each target interpreter's marshal, dis.get_instructions and dis.stack_effect; for 3.7 (no jump= argument) FOR_ITER and JUMP_IF_x_OR_POP effects come from CPython 3.7 compile.c, "
-                        "and the stack-size clause is skipped for 3.7 code objects that contain SETUP_WITH/SETUP_FINALLY/SETUP_EXCEPT",
-                        "over-estimates of co_stacksize are allowed"]
+    chk.coverage["violation_keys_seen"] = dict(sorted({**chk.known_hit, **chk.new_keys}.items()))
+    if checked < 0.5 * len(items):
+        chk.machinery(f"only {checked}/{len(items)} programs compiled: nearly vacuous")
+    chk.assumptions += ["trusted base: each target interpreter's marshal, dis.get_instructions, dis.stack_effect, code.co_lines / dis.findlinestarts; hand-written: which opcodes do not fall through, the 3.11 "
+                        "exception-table varint format, and ceval.c's semantics of the 3.7/3.8 block opcodes - all validated by the zero-violation self-test on each interpreter's own compiler output",
+                        "over-estimates of co_stacksize are allowed; a depth outside 0..co_stacksize is reported and that path is not explored further",
+                        "code objects of inlined imported modules keep their own line numbers: their lines are judged against the longest importable .er file, not the importer"]
 
 
 def replay(path):
@@ -84,7 +270,12 @@ def replay(path):
     if res["r0"]["status"] != "ok":
         print(res["r0"])
         return 0
-    n = (it.get("src") or open(it["path"]).read()).count("\n") + 1
-    out = vlib.py_run([{"id": "r0", "pyc": res["r0"]["pyc"], "nlines": n}], "c14replay", version=it.get("target", "3.11"), script_name="codecheck.py")
+    if it.get("src") is not None:
+        n = ni = it["src"].count("\n") + 1
+    else:
+        n = open(it["path"]).read().count("\n") + 1
+        ni = max(n, inlined_bound(it["path"]))
+    out = vlib.py_run([{"id": "r0", "pyc": res["r0"]["pyc"], "nlines": n, "nlines_inlined": ni}], "c14replay", version=it.get("target", "3.11"), script_name="codecheck.py")
     print(json.dumps(out["r0"], indent=1))
-    return 1 if out["r0"]["violations"] else 0
+    want = w["violation"]["kind"]
+    return 1 if any(v["kind"] == want for v in out["r0"]["violations"]) else 0
